@@ -114,8 +114,8 @@ def run(tier, seed):
         if gen[0] is None: gen[0] = progs.Gen(rnd, PROFILE)
         return gen[0].case()
     nm = len(pending)
-    return tracecheck.run(PID, tier, seed, PROFILE, oracle, n_quick=nm + 350, n_thorough=nm + 6000, require_props=False, mask=1 | 4 | 8, mutation_oracle=True,
-                          level="translation_validation", casegen=casegen)
+    return tracecheck.run(PID, tier, seed, PROFILE, oracle, n_quick=nm + 350, n_thorough=nm + 6000, mask=1 | 4 | 8, mutation_oracle=True,
+                          casegen=casegen)
 
 
 def replay(payload):
